@@ -98,10 +98,39 @@ BENIGN = [
  ('status_display_name_table', R + 'core/solver.rs', '        write!(f, "{:?}", self)\n', '        let name = match self {\n            SolverStatus::Unsolved => "Unsolved",\n            SolverStatus::Solved => "Solved",\n            SolverStatus::PrimalInfeasible => "PrimalInfeasible",\n            SolverStatus::DualInfeasible => "DualInfeasible",\n            SolverStatus::AlmostSolved => "AlmostSolved",\n            SolverStatus::AlmostPrimalInfeasible => "AlmostPrimalInfeasible",\n            SolverStatus::AlmostDualInfeasible => "AlmostDualInfeasible",\n            SolverStatus::MaxIterations => "MaxIterations",\n            SolverStatus::MaxTime => "MaxTime",\n            SolverStatus::NumericalError => "NumericalError",\n            SolverStatus::InsufficientProgress => "InsufficientProgress",\n        };\n        f.write_str(name)\n'),
  ('parent_child_clears_reordered', 'src/solver/chordal/merge/parent_child.rs', '        t.snode[ch].clear();\n        t.separators[ch].clear();', '        t.separators[ch].clear();\n        t.snode[ch].clear();'),
  ('sortperm_len_local', 'src/solver/chordal/merge/clique_graph.rs', '        let slicep = &mut p[0..self.edges.nzval.len()];\n        sortperm_rev(slicep, &self.edges.nzval);', '        let nedges = self.edges.nzval.len();\n        sortperm_rev(&mut p[0..nedges], &self.edges.nzval);'),
+ ('dedup_locals_renamed', 'src/algebra/csc/core.rs', None, None),  # handled specially: ptr/stop/nnz/accum/thisrow renamed inside deduplicate
+ ('dedup_ne_bound', 'src/algebra/csc/core.rs', '            while ptr < stop {\n                let thisrow = self.rowval[ptr];', '            while ptr != stop {\n                let thisrow = self.rowval[ptr];'),
+ ('dropzeros_always_move', 'src/algebra/csc/core.rs', '                    if writeidx != readidx {\n                        self.nzval[writeidx] = val;\n                        self.rowval[writeidx] = row;\n                    }\n', '                    self.nzval[writeidx] = val;\n                    self.rowval[writeidx] = row;\n'),
+ ('select_rows_close_after_loop', 'src/algebra/csc/core.rs', '                }\n            }\n            Ared.colptr[Ared.n] = ptrred;\n        }\n\n        Ared', '                }\n            }\n        }\n        Ared.colptr[Ared.n] = ptrred;\n\n        Ared'),
+ ('set_entry_absent_flag', 'src/algebra/csc/core.rs', '        if i == rows_in_this_column.len() || rows_in_this_column[i] != row {\n            // don\'t allocate', '        let absent = i == rows_in_this_column.len() || rows_in_this_column[i] != row;\n        if absent {\n            // don\'t allocate'),
+ ('index_to_coord_le', 'src/algebra/csc/core.rs', 'self.colptr.partition_point(|&c| idx + 1 > c) - 1', 'self.colptr.partition_point(|&c| c <= idx) - 1'),
+ ('pd_scaling_commuted', R + 'core/cones/nonsymmetric_common.rs', '            δs[i] = s[i] + μ * st[i];\n            δz[i] = z[i] + μ * zt[i];', '            δs[i] = μ * st[i] + s[i];\n            δz[i] = zt[i] * μ + z[i];'),
+ ('pd_scaling_dyads_reordered', R + 'core/cones/nonsymmetric_common.rs', '                        s[i] * s[j] / dot_sz + δs[i] * δs[j] / dot_δsz + t * axis_z[i] * axis_z[j];', '                        δs[i] * δs[j] / dot_δsz + axis_z[i] * axis_z[j] * t + s[i] * s[j] / dot_sz;'),
+ ('exp_higher_corr_recip', R + 'core/cones/expcone.rs', '        let inv_ψ2 = (ψ * ψ).recip();', '        let inv_ψ2 = T::one() / (ψ * ψ);'),
+ ('exp_higher_corr_half', R + 'core/cones/expcone.rs', '        η[..].scale((0.5).as_T());\n    }\n\n    // 3rd-order correction at the point z.', '        η[..].scale(T::one() / two);\n    }\n\n    // 3rd-order correction at the point z.'),
+ ('small_step_fail_order', R + 'core/solver.rs', '                self.info.set_status(SolverStatus::InsufficientProgress);\n                output = StrategyCheckpoint::Fail;', '                output = StrategyCheckpoint::Fail;\n                self.info.set_status(SolverStatus::InsufficientProgress);'),
+ ('clique_graph_merge_clear_first_len', 'src/solver/chordal/merge/clique_graph.rs', '        set_union_into_indexed(&mut t.snode, c1, c2);\n        t.snode[c2].clear();\n\n        // decrement number of mergeable / nonempty cliques in graph\n        t.n_cliques -= 1', '        t.n_cliques -= 1;\n        set_union_into_indexed(&mut t.snode, c1, c2);\n        t.snode[c2].clear();'),
+ ('is_triu_skip_empty_column', 'src/algebra/csc/core.rs', '            let rows = &self.rowval[first..last];\n\n            // number of entries on or above diagonal in this column,\n            // shifted by 1 (i.e. colptr keeps a 0 in the first column)\n            if rows.iter().any(', '            if first == last {\n                continue;\n            }\n            let rows = &self.rowval[first..last];\n\n            // number of entries on or above diagonal in this column,\n            // shifted by 1 (i.e. colptr keeps a 0 in the first column)\n            if rows.iter().any('),
+ ('gate_two_step', D + 'data_updating.rs', '        if self.data.is_presolved() {\n            return Err(DataUpdateError::PresolveIsActive);\n        }', '        let presolved = self.data.is_presolved();\n        if presolved {\n            return Err(DataUpdateError::PresolveIsActive);\n        }'),
+ ('cholesky_pivot_gt_form', 'src/algebra/densesym3x3/mod.rs', '        let t = A[(0, 0)];\n        if t <= T::zero() {\n            return false;\n        }', '        let t = A[(0, 0)];\n        if !(t > T::zero()) {\n            return false;\n        }'),
+ ('pow_unit_init_two_minus_alpha', R + 'core/cones/powcone.rs', '        s[1] = (T::one() + (T::one() - α)).sqrt();', '        s[1] = (T::one() + T::one() - α).sqrt();'),
+ ('combined_rhs_scale_step_s', D + 'variables.rs', '        if m != T::one() {\n            step.z.scale(m);\n        }', '        if m != T::one() {\n            step.s.scale(m);\n        }'),
+ ('barrier_trial_commuted', R + 'core/cones/expcone.rs', '        let cur_s = [s[0] + α * ds[0], s[1] + α * ds[1], s[2] + α * ds[2]];\n\n        barrier += self.barrier_dual(&cur_z);\n        barrier += self.barrier_primal(&cur_s);', '        let cur_s = [ds[0] * α + s[0], s[1] + ds[1] * α, α * ds[2] + s[2]];\n\n        barrier += self.barrier_primal(&cur_s);\n        barrier += self.barrier_dual(&cur_z);'),
+ ('info_reset_reordered', D + 'info.rs', '        self.status = SolverStatus::Unsolved;\n        self.iterations = 0;\n        self.solve_time = 0f64;\n\n        timers.reset_timer("solve");', '        timers.reset_timer("solve");\n        self.solve_time = 0f64;\n        self.iterations = 0;\n        self.status = SolverStatus::Unsolved;'),
+ ('block_indices_le_swapped', 'src/solver/chordal/decomp/augment_compact.rs', '    for &i in snode {\n        for &j in separator {\n            block_indices.push((min(i, j), max(i, j), false));\n        }\n    }', '    for &j in separator {\n        for &i in snode {\n            block_indices.push((min(j, i), max(j, i), false));\n        }\n    }'),
+ ('validator_size_in_message', D + 'json.rs', '    P.check_format().map_err(|e| invalid(format!("P: {}", e)))?;', '    P.check_format()\n        .map_err(|e| invalid(format!("P ({} x {}): {}", P.nrows(), P.ncols(), e)))?;'),
 ]
 
 
 def special(name, src):
+    if name == 'dedup_locals_renamed':
+        import re
+        a = src.index('    fn deduplicate(&mut self)')
+        b = src.index('    /// Check that for dimensional consistency.', a)
+        body = src[a:b]
+        for old, new in (('ptr', 'cursor'), ('stop', 'colend'), ('nnz', 'nout'), ('accum', 'total'), ('thisrow', 'r0')):
+            body = re.sub(r'\b%s\b' % old, new, body)
+        return src[:a] + body + src[b:]
     if name == 'factor_logical_continue':
         a = src.index('        if !logical_factor {\n            // apply dynamic regularization\n            if regularize_enable {\n                let sign = T::from_i8(Dsigns[k]).unwrap();')
         b = src.index('    } //end for k', a)
